@@ -2,6 +2,7 @@
 #![allow(dead_code)]
 mod compx;
 mod crashx;
+mod faultx;
 mod props_comp;
 mod props_crash;
 mod props_sched;
@@ -149,6 +150,7 @@ fn dispatch(id: &str, tier: &str) {
         "C05" => props_sched::c05(tier),
         "C06" => props_sched::c06(tier),
         "C07" => props_seq::c07(tier),
+        "C08" => props_crash::c08(tier),
         "C09" => props_seq::c09(tier),
         "C10" => props_seq::c10(tier),
         "C12" => props_comp::c12(tier),
